@@ -245,12 +245,15 @@ def run_history(sc, want_idempotence=True, faults=None, audits=True):
                             stale_before.add(bfull)
             snap0 = w.snapshot()
             valid_before = set(before)
+            valid_before_ents = {}
             _m = Model(w.root, top)
             for k0, v0 in snap0.items():
                 if v0[0] == 'file' and is_manifest_path(k0) and k0 not in valid_before:
                     try:
-                        if _m.read_manifest(k0)[0] is not None:
+                        ents0 = _m.read_manifest(k0)[0]
+                        if ents0 is not None:
                             valid_before.add(k0)
+                            valid_before_ents[k0] = ents0
                     except Exception:
                         pass
             r, info = do_update(w, seam, u, opi, top)
@@ -316,11 +319,8 @@ def run_history(sc, want_idempotence=True, faults=None, audits=True):
             before_all = dict(before)
             for vb in valid_before:
                 # (only names the unregistered-Manifest scan looks for can be adopted by the update)
-                if vb not in before_all and os.path.basename(vb) in G.MANIFEST_NAMES:
-                    try:
-                        before_all[vb] = _m.read_manifest(vb)[0]     # unregistered but valid: update will adopt it
-                    except Exception:
-                        pass
+                if vb not in before_all and os.path.basename(vb) in G.MANIFEST_NAMES and vb in valid_before_ents:
+                    before_all[vb] = valid_before_ents[vb]     # unregistered but valid: update will adopt it
             for mp, ents in before_all.items():
                 if ents is None:
                     continue
